@@ -189,7 +189,8 @@ def random_piece(rng, c):
     bars = []
     for b in range(nb):
         if rng.random() < .35:
-            sig = rng.choice([(4, 4), (3, 4), (2, 4), (6, 8), (2, 2), (5, 4), (7, 8), (3, 8), (12, 8), (2, 8), (3, 8), (1, 4)])
+            sig = rng.choice([(4, 4), (3, 4), (2, 4), (6, 8), (2, 2), (5, 4), (7, 8), (3, 8), (12, 8), (2, 8), (3, 8), (1, 4),
+                              (9, 8), (5, 8), (11, 8), (7, 4), (3, 2), (2, 1), (15, 8), (4, 2), (13, 8)])
             sigs.append([t, sig[0], sig[1]])
         ln = c["ppqn"] * 4 * sig[0] // sig[1]
         bars.append((t, t + ln))
@@ -358,12 +359,86 @@ def witness(case):
     return line
 
 
+def closure(case):
+    """Any input: tokenise either rejects it with its own error or emits vocabulary tokens only."""
+    idx, c, piece, tag = case
+    line = {"kind": "closure", "cfg": c, "tag": tag, "tokRaised": "", "detokRaised": "", "allKeys": False, "codecIdentity": False,
+            "tokens": [], "case": {"cfg": c, "piece": piece, "tag": tag}}
+    try:
+        tok = make_tokeniser(c)
+        seqs = piece_sequences(piece)
+    except Exception as e:
+        line["tokRaised"] = f"harness {type(e).__name__}: {e}"
+        return line
+    try:
+        tokens = tok.tokenise(seqs)
+    except Exception as e:
+        line["tokRaised"] = type(e).__name__
+        line["detail"] = str(e)[:80]
+        return line
+    line["tokens"] = list(tokens)[:40]
+    bad = [t for t in tokens if t not in tok.dictionary]
+    line["allKeys"] = not bad
+    line["notKeys"] = bad[:5]
+    if bad:
+        return line
+    try:
+        dec = tok.decode(tok.encode(tokens))
+        line["codecIdentity"] = list(dec) == list(tokens)
+        try:
+            tok.detokenise(dec)
+        except Exception as e:
+            line["detokRaised"] = f"{type(e).__name__}: {e}"
+    except Exception:
+        line["codecIdentity"] = False
+    return line
+
+
+def closure_cases(ctx):
+    base = {"ppqn": 24, "tracks": 1, "pitLo": 60, "pitHi": 72, "steps": DEFAULT_STEPS, "values": [6, 12, 24], "nbins": 1,
+            "tsLo": 2, "tsHi": 16, "running": True, "fuseTrk": True, "fuseVal": True, "fuseVel": True}
+    cases = []
+    one = lambda p=60, v=100, val=12, s=0: [[{"p": p, "s": s, "e": s + val, "v": v}]]
+    # every time signature n/d: accepted or rejected, never a token outside the vocabulary
+    for n in range(1, 25):
+        for d in (1, 2, 4, 8, 16, 32):
+            for rng_ts in ((2, 16), (4, 12)):
+                c = dict(base, tsLo=rng_ts[0], tsHi=rng_ts[1])
+                cases.append((len(cases), c, {"tracks": one(), "sigs": [[0, n, d]], "end": 24, "cap": True, "bars": False}, f"ts {n}/{d}"))
+    # every velocity under many bin counts, fused and unfused
+    bins = [1, 2, 3, 4, 5, 6, 7, 8, 10, 12, 16, 32, 127] if ctx.thorough else [1, 2, 3, 5, 6, 8, 10, 16, 127]
+    for nb in bins:
+        for fuse in (True, False):
+            for run in (True, False):
+                c = dict(base, nbins=nb, fuseVel=fuse, running=run)
+                notes = [{"p": 60 + (v % 2), "s": 24 * (v - 1), "e": 24 * (v - 1) + 12, "v": v} for v in range(1, 128)]
+                cases.append((len(cases), c, {"tracks": [notes], "sigs": [], "end": 24 * 127, "cap": True, "bars": False}, f"velocities bins={nb}"))
+    # pitches around the range, values in and out of the set, track count mismatch
+    for p in (58, 59, 60, 61, 71, 72, 73, 74):
+        cases.append((len(cases), base, {"tracks": one(p=p), "sigs": [], "end": 24, "cap": True, "bars": False}, f"pitch {p}"))
+    for val in (1, 2, 3, 4, 5, 6, 9, 12, 18, 24, 36, 48, 96, 100):
+        for fuse in (True, False):
+            cases.append((len(cases), dict(base, fuseVal=fuse), {"tracks": one(val=val), "sigs": [], "end": 96, "cap": True, "bars": False}, f"value {val}"))
+    for nt in (1, 2, 3):
+        for fuse in (True, False):
+            c = dict(base, tracks=nt, fuseTrk=fuse)
+            for given in (1, 2, 3):
+                cases.append((len(cases), c, {"tracks": [one(p=60 + i)[0] for i in range(given)], "sigs": [], "end": 24, "cap": True,
+                                              "bars": False}, f"tracks {given} of {nt}"))
+    # onsets off and on the step grid
+    for s0 in range(0, 14):
+        cases.append((len(cases), base, {"tracks": one(s=s0), "sigs": [], "end": 96, "cap": True, "bars": False}, f"onset {s0}"))
+    return cases
+
+
 def run_c02(ctx, g):
     rng = ctx.rng
     if ctx.replay:
         o = json.load(open(ctx.replay))["observation"]
         if o["kind"] == "vocab":
             obs = [vocab_dump((0, o["case"]["cfg"]))]
+        elif o["kind"] == "closure":
+            obs = [closure((0, o["case"]["cfg"], o["case"]["piece"], o["case"]["tag"]))]
         else:
             obs = [witness((0, o["case"]["cfg"], o["case"]["want"]))]
     else:
@@ -388,11 +463,12 @@ def run_c02(ctx, g):
                     continue
                 wcases.append((len(wcases), c, want))
         obs += pmap(witness, wcases, chunk=100)
+        obs += pmap(closure, closure_cases(ctx), chunk=50)
     for i, o in enumerate(obs):
         o["id"] = i
     slim = []
     for o in obs:
-        s = {k: v for k, v in o.items() if k not in ("case", "tokens")}
+        s = {k: v for k, v in o.items() if k not in ("case", "tokens", "notKeys", "detail")}
         if o["kind"] == "vocab":
             s["entries"] = [{k: v for k, v in e.items() if k != "key"} for e in o["entries"]]
         slim.append(s)
@@ -401,7 +477,7 @@ def run_c02(ctx, g):
     def nontrivial(o):
         if o["kind"] == "vocab":
             return ("vocab", json.dumps(o["case"]["cfg"], sort_keys=True))
-        return ("witness", json.dumps(o["case"], sort_keys=True))
+        return (o["kind"], json.dumps(o["case"], sort_keys=True))
 
     nvoc = sum(1 for o in obs if o["kind"] == "vocab")
     nent = sum(len(o["entries"]) for o in obs if o["kind"] == "vocab")
@@ -412,26 +488,55 @@ def run_c02(ctx, g):
                       rule="complete dictionaries of a configuration lattice (all 16 flag sets x bin counts x track counts x pitch "
                            "ranges x note-value sets), every entry checked (id range, both round trips, accepted by detokenise), "
                            "plus one witness piece per abstract token of Vocab(cfg) written by TLC for the 16 model "
-                           "configurations, forcing the emission of that token; non-trivial = distinct configuration / "
-                           "distinct (configuration, wanted token)",
+                           "configurations, forcing the emission of that token; plus closure sweeps over inputs tokenise may "
+                           "accept or reject (every signature n/d for n<=24, every velocity under 9-13 bin counts fused and "
+                           "unfused, pitches around the range, note values in and out of the set, track-count mismatches, "
+                           "onsets on and off the step grid); non-trivial = distinct configuration / (configuration, wanted "
+                           "token) / closure input",
                       nontrivial=nontrivial, samples=samples, exhaustive=True,
-                      extra_cov={"dictionaries": nvoc, "dictionary_entries_checked": nent})
+                      extra_cov={"dictionaries": nvoc, "dictionary_entries_checked": nent,
+                                 "closure_inputs_accepted": sum(1 for o in obs if o["kind"] == "closure" and o["tokRaised"] == ""),
+                                 "closure_inputs_rejected": sum(1 for o in obs if o["kind"] == "closure" and o["tokRaised"] != "")})
 
 
 # ------------------------------------------------------------------ C03
 
 def chunked(case):
     idx, c, piece, cuts, qnl = case
-    line = {"kind": "chunk", "cfg": c, "piece": piece, "cuts": cuts, "qnl": qnl, "raised": "", "chunked": EMPTY_OUT,
-            "single": EMPTY_OUT, "expected": [], "nbars": 0, "case": {"cfg": c, "piece": piece, "cuts": cuts, "qnl": qnl}}
+    route = "split" if qnl == "split" else "bars"
+    line = {"kind": "chunk", "cfg": c, "piece": piece, "cuts": cuts, "qnl": qnl is True, "route": route, "raised": "",
+            "chunked": EMPTY_OUT, "single": EMPTY_OUT, "expected": [], "nbars": 0,
+            "case": {"cfg": c, "piece": piece, "cuts": cuts, "qnl": qnl}}
     try:
         tok = make_tokeniser(c)
         seqs = piece_sequences(piece)
-        bars = Sequence.sequences_split_bars(seqs, meta_track_index=0, quantise_note_lengths=qnl)
-        nb = len(bars[0])
-        line["nbars"] = nb
-        # the piece the property talks about: the bars laid end to end
-        whole = [Bar.to_sequence([b.copy() for b in tb]) for tb in bars]
+        if route == "split":
+            # chunks of whole bars obtained by plain splitting at the chosen bar lines: only the first chunk (and chunks
+            # where the piece itself changes signature) start with a signature event
+            bounds = [0] + sorted(cuts) + [piece["end"]]
+            caps = [b - a for a, b in zip(bounds, bounds[1:])]
+            whole = [s.copy() for s in seqs]
+            parts = [s.split(caps[:-1]) if len(caps) > 1 else [s.copy()] for s in seqs]
+            groups = list(range(len(caps)))
+            line["nbars"] = len(caps)
+            chunks = [[(p[k] if k < len(p) else Sequence()) for p in parts] for k in groups]
+        else:
+            bars = Sequence.sequences_split_bars(seqs, meta_track_index=0, quantise_note_lengths=bool(qnl))
+            nb = len(bars[0])
+            line["nbars"] = nb
+            # the piece the property talks about: the bars laid end to end
+            whole = [Bar.to_sequence([b.copy() for b in tb]) for tb in bars]
+            t, bounds = 0, [0]
+            for b in bars[0]:
+                t += sum(m["t"] for m in P.raw_rel(b.sequence) if m["ty"] == "wait")
+                bounds.append(t)
+            groups, cur = [], []
+            for k in range(nb):
+                cur.append(k)
+                if bounds[k + 1] in cuts or k == nb - 1:
+                    groups.append(cur)
+                    cur = []
+            chunks = [[Bar.to_sequence([tb[k].copy() for k in grp]) for tb in bars] for grp in groups]
         exp = []
         for i, s in enumerate(whole):
             ns, _ = P.notes_of_abs(P.raw_abs(s))
@@ -439,23 +544,10 @@ def chunked(case):
         line["expected"] = exp
         single = tok.tokenise(whole)
         line["single"] = project_out(tok.detokenise(tok.decode(tok.encode(single))))
-        # bar lines (in bars) at which a new call starts
-        starts, t = [], 0
-        bounds = [0]
-        for b in bars[0]:
-            t += sum(m["t"] for m in P.raw_rel(b.sequence) if m["ty"] == "wait")
-            bounds.append(t)
-        groups, cur = [], []
-        for k in range(nb):
-            cur.append(k)
-            if bounds[k + 1] in cuts or k == nb - 1:
-                groups.append(cur)
-                cur = []
         state, toks = dict(), []
-        for grp in groups:
-            part = [Bar.to_sequence([tb[k].copy() for k in grp]) for tb in bars]
+        for part in chunks:
             toks.extend(tok.tokenise(part, state_dict=state))
-        line["ncalls"] = len(groups)
+        line["ncalls"] = len(chunks)
         line["chunked"] = project_out(tok.detokenise(tok.decode(tok.encode(toks))))
     except Exception as e:
         line["raised"] = f"{type(e).__name__}: {e}"
@@ -491,6 +583,8 @@ def run_c03(ctx, g):
             for cuts in subsets:
                 c = cfgs[(k + len(cuts)) % len(cfgs)]
                 cases.append((len(cases), c, pc, cuts, (k % 2 == 0)))
+                if cuts:
+                    cases.append((len(cases), c, pc, cuts, "split"))
         if not ctx.thorough and len(cases) > 5000:
             cases = rng.sample(cases, 5000)
         for k in range(20000 if ctx.thorough else 2500):
@@ -511,7 +605,7 @@ def run_c03(ctx, g):
             cuts = [b for b in interior if rng.random() < .5]
             crossing = any(n["s"] < b < n["e"] for tr in pc["tracks"] for n in tr for b in lines)
             # cut fragments only have allowed note values after re-quantisation
-            cases.append((len(cases), c, pc, cuts, True if crossing else rng.random() < .5))
+            cases.append((len(cases), c, pc, cuts, True if crossing else rng.choice([True, False, "split"])))
     obs = pmap(chunked, cases, chunk=100)
     for i, o in enumerate(obs):
         o["id"] = i
@@ -524,13 +618,14 @@ def run_c03(ctx, g):
     def nontrivial(o):
         if o.get("ncalls", 0) < 2:
             return None
-        return (json.dumps(o["case"]["cfg"], sort_keys=True), json.dumps(o["piece"], sort_keys=True), tuple(o["cuts"]), o["qnl"])
+        return (json.dumps(o["case"]["cfg"], sort_keys=True), json.dumps(o["piece"], sort_keys=True), tuple(o["cuts"]), str(o["case"]["qnl"]))
 
     samples = [{"piece": o["piece"], "cuts": o["cuts"], "ncalls": o.get("ncalls"), "nbars": o["nbars"]}
                for o in obs[5::max(1, len(obs) // 3)]][:3]
     return ctx.finish(list(zip(obs, ver)),
                       rule="whole-bar pieces of TokeniserSys.tla (1-3 bars, signature changes, empty bars) x every partition of their "
-                           "bars into consecutive calls, bars obtained from sequences_split_bars with both settings, plus seeded "
+                           "bars into consecutive calls, chunks obtained as Bar objects from sequences_split_bars (both settings) and by plain "
+                           "Sequence.split at the chosen bar lines (chunks that do not restart with a signature event), plus seeded "
                            "random pieces of up to 6 bars with random partitions and configurations; non-trivial = distinct case "
                            "with at least two calls",
                       nontrivial=nontrivial, samples=samples, extra_cov={"cases_with_several_calls": multi})
